@@ -2206,8 +2206,12 @@ XPathProcessorImpl::LocationPath()
 
     m_expression->appendOpCode(XPathExpression::eOP_LOCATIONPATH);
 
+    bool    fHasSteps = false;
+
     if(tokenIs(XalanUnicode::charSolidus) == true)
     {
+        fHasSteps = true;
+
         nextToken();
 
         const int   newOpPos = m_expression->opCodeMapLength();
@@ -2227,7 +2231,23 @@ XPathProcessorImpl::LocationPath()
 
     if(m_token.empty() == false)
     {
+        const int   theLengthBefore = m_expression->opCodeMapLength();
+
         RelativeLocationPath();
+
+        if (m_expression->opCodeMapLength() != theLengthBefore)
+        {
+            fHasSteps = true;
+        }
+    }
+
+    // A location path has at least one step.  Step() tolerates a right
+    // parenthesis, so an operator directly before one ("-)", "1 + )")
+    // would otherwise compile into a path that ends before it starts,
+    // and evaluating that reads beyond the op-code map.
+    if (fHasSteps == false)
+    {
+        error(XalanMessages::ExpectedNodeTest);
     }
 
     // Terminate for safety.
